@@ -24,6 +24,9 @@ def programs(env, tier):
         out.append((1, [(g, 0)]))
     for g, h in itertools.product(a1, repeat=2):
         out.append((1, [(g, 0), (h, 0)]))
+    if tier == "thorough":
+        for g, h, k in itertools.product(a1, repeat=3):
+            out.append((1, [(g, 0), (h, 0), (k, 0)]))
     ent = [("CNOT",), ("CNOT", 0), ("CZ",), ("CNOT_Heralded",), ("CNOT_Heralded", 0), ("CZ_Heralded",), ("SWAP",)]
     lead = [(a1[0], a1[8]), (a1[9], a1[7]), (a1[1], a1[0])]
     trail = [(a1[4], a1[10]), (a1[11], a1[5]), (a1[7], a1[9])]
@@ -33,6 +36,9 @@ def programs(env, tier):
         for l in lead:
             for t in trail:
                 out.append((2, [(l[0], 0), (l[1], 1), (e, 0), (t[0], 0), (t[1], 1)]))
+    if tier == "thorough":     # two entanglers in a row, every ordered pair
+        for e1, e2 in itertools.product(ent, repeat=2):
+            out.append((2, [(a1[0], 0), (a1[9], 1), (e1, 0), (a1[4], 0), (a1[7], 1), (e2, 0), (a1[10], 0)]))
     # ancilla between the rails of a qubit (the measurement circuits are then added across it)
     anc = ("ANC", env.R2)
     out.append((1, [(anc, 0)]))
